@@ -41,16 +41,17 @@ def config_list(seed, tier):
     def add(name, n):
         out.append(dict(runname=name, basis=None, compl=n, nfun=configs.nfun(S[name], n)))
     if tier == 'quick':
-        for name, n in (('core_maths', 3), ('core_maths', 4), ('osc_maths', 3), ('base_e_maths', 3)):
+        for name, n in (('core_maths', 3), ('core_maths', 4), ('osc_maths', 3), ('base_e_maths', 3), ('ext_maths', 2)):
             add(name, n)
         nsub, cap = 3, 120
     else:
         for name, n in (('core_maths', 3), ('core_maths', 4), ('core_maths', 5), ('osc_maths', 3), ('osc_maths', 4),
-                        ('base_e_maths', 3), ('base_e_maths', 4), ('ext_maths', 3), ('base10_maths', 3), ('keep_duplicates', 3)):
+                        ('base_e_maths', 3), ('base_e_maths', 4), ('ext_maths', 3), ('base10_maths', 3), ('keep_duplicates', 3), ('ext_maths', 2),
+                        ('keep_duplicates', 2), ('core_maths', 2)):
             add(name, n)
         nsub, cap = 10, 400
-    subs, _ = configs.pool(rng, n_sub=nsub, max_n=5, cap=cap, shipped=False, min_n=3)
-    out += [c for c in subs if c['compl'] >= 3]
+    subs, _ = configs.pool(rng, n_sub=nsub, max_n=5, cap=cap, shipped=False, min_n=2)
+    out += [c for c in subs if c['compl'] >= 2]
     return out
 
 
@@ -166,7 +167,11 @@ def main(tier, seed, budget):
         # ---- fault-free profiles for every (config, P) ----
         prof_jobs = []
         for c in cfgs:
-            for P in ((1, 2) if quick else (1, 2, 3)):
+            Ps = (1, 2) if quick else (1, 2, 3)
+            if c['nfun'] <= 70:
+                # small libraries also with many ranks: tiny and empty shares, functions of one class spread over all ranks
+                Ps = Ps + ((5,) if quick else (5, 8, 11))
+            for P in Ps:
                 a = base_args(c, P, 0)
                 a.update(profile=True, profile_calls=True)
                 prof_jobs.append(dict(fn=JOB, args=a, timeout=1500))
@@ -202,7 +207,7 @@ def main(tier, seed, budget):
         def mk_job(i):
             rs = base.run_seed(seed, i)
             rng = base.rng_for(rs)
-            w = [(1.0 if k[2] == 1 else 0.35) / (1 + cfg_by[k[:2]]['nfun'] / 120.0) for k in keys]
+            w = [(1.0 if k[2] == 1 else 0.35 if k[2] <= 3 else 0.2) / (1 + cfg_by[k[:2]]['nfun'] / 120.0) for k in keys]
             key = rng.choices(keys, w)[0]
             c = cfg_by[key[:2]]
             a = base_args(c, key[2], rs)
